@@ -462,9 +462,13 @@ def plan (e : Env) (enc : Bytes → Bytes) : Op → Plan
     let t1 := [rd src, rd sbp]
     withPath (getBucketPath e b) t1 fun bp =>
     let t2 := t1 ++ [rd bp, ⟨.create, .dirChain (parentPath dst)⟩, cr dst, wr dst]
+    -- aa68bb7 `copy_side_file`, for the metadata file and then for the internal-info file: the source's file is probed and
+    -- copied over the destination's; when the source has none, the destination's is probed and removed
     withPath (metadataPath e enc sb sk none) t2 fun sm =>
-    let t3 := t2 ++ [rd sm]
-    withPath (metadataPath e enc b k none) t3 fun dm => .ok (t3 ++ [cr dm, wr dm])
+    withPath (metadataPath e enc b k none) t2 fun dm =>
+    let t3 := t2 ++ [rd sm, rd dm, cr dm, wr dm, rm dm]
+    withPath (internalInfoPath e enc sb sk) t3 fun si =>
+    withPath (internalInfoPath e enc b k) t3 fun di => .ok (t3 ++ [rd si, rd di, cr di, wr di, rm di])
   | .putObject b k hasBody hasMeta scOk lenPos counter =>
     if !scOk then .fail [] .invalidStorageClass
     else if !hasBody then .fail [] .incompleteBody
